@@ -344,6 +344,7 @@ def run(ctx: RuleContext, p: Program) -> None:
     ctx.try_rule(seps.rule_sep_fresh, p, 'SEP-FRESH')
     from . import round4
     ctx.try_rule(round4.rule_replace_store, p, 'REPLACE-STORE')
+    ctx.try_rule(round4.rule_desc_state, p, 'DESC-STATE')
     ctx.not_decided += ['that the copy compares equal (structural part under C20)', 'exact spans at reordered placeholders',
                         'independence under later edits as a runtime fact']
     ctx.assumptions += ['copy.deepcopy(token) dispatches to RawTokenModel.__deepcopy__', 'TokenStore.from_tokens builds a new store']
